@@ -126,6 +126,18 @@ def enumerate_cases(tier, seed):
         for form in FORMS:
             yield {"mode": "single", "full": True, "site": mapsite,
                    "req": {"target": target, "mut": "none", "form": form, "raw": None, "rawtls": False, "search": None, "bare": False}}
+    # mail folders whose subjects are RFC 2047 words standing for control characters, through every form
+    import base64
+    hidden = ["=?utf-8?q?tab=09inside?=", "=?utf-8?b?%s?=" % base64.b64encode(b"two\r\n1lines\t/\tgopher.example.org\t70").decode(),
+              "=?iso-8859-1?q?a=0D=0Ab?=", "plain subject"]
+    mailsite = [["box.mbox", {"kind": "mbox", "subjects": hidden}], ["md", {"kind": "maildir", "subjects": hidden[:2]}]]
+    nmail = len(sites.objects(mailsite))
+    for target in range(1, nmail + 3):
+        if target % 5 == 0:
+            continue
+        for form in FORMS:
+            yield {"mode": "single", "full": False, "site": mailsite,
+                   "req": {"target": target, "mut": "none", "form": form, "raw": None, "rawtls": False, "search": None, "bare": False}}
     for target in (2, 1):
         for mut in ("qmark", "bar", "qquote", "barquote", "qbslash", "qshell"):
             for form in FORMS:
